@@ -193,6 +193,42 @@ def run(ctx):
             want = "ok\t%d\t%s\t%s" % (len(d["forward_path"]), hx(U(d["reverse_path"])) if d["reverse_path"] else "!", "|".join(hx(U(x)) for x in d["forward_path"]))
             if r != want:
                 env_bad.append("the envelope %s does not read back: %s" % (j, r))
+    # the fifth way an address reaches the wire: MAIL / RCPT command values that came through a deserializer (the commands derive
+    # Deserialize).  A path is taken iff the address parser takes it, and what is written is one line VERB:<address> CRLF.
+    c_acc = [x for x, r in zip(strs, impl) if r.startswith("ok\t")]
+    c_rej = [x for x, r in zip(strs, impl) if not r.startswith("ok\t")]
+    csel = [x for x in dict.fromkeys(c_acc[::max(1, len(c_acc) // 800)] + c_rej[::max(1, len(c_rej) // 800)] + ["a@b.example>\r\nRSET\r\nMAIL FROM:<e@b.example", "a@b.example> SIZE=1", "a b@c.example", "<a@b.example>", "a@b.example\r\n", "", "@", "a@", "\u0000@x.example"]) if len(x) < 200]
+    cverdict = dict(zip(csel, [r.startswith("ok\t") for r in run_impl(["addr.from_str\t" + hx(U(x)) for x in csel])]))
+    clines = [("rcpt", x, json.dumps({"recipient": x, "parameters": []})) for x in csel] + [("mail", x, json.dumps({"sender": x, "parameters": []})) for x in csel] + \
+             [("mail", None, '{"sender":null,"parameters":[]}')]
+    cres = run_impl(["cmd.json\t%s\t%s" % (v, hx(U(j))) for v, _, j in clines])
+    ctx.count(len(clines))
+    cmd_n = {"accepted": 0, "refused": 0}
+    for (v, x, j), r in zip(clines, cres):
+        verb = b"RCPT TO:<" if v == "rcpt" else b"MAIL FROM:<"
+        if r == "panic":
+            env_bad.append("deserializing the command %s panics" % j)
+        elif r == "err":
+            cmd_n["refused"] += 1
+            if x is None or cverdict.get(x):
+                env_bad.append("the command %s (a path the address parser accepts) is refused by the deserializer" % j)
+        elif r.startswith("ok\t"):
+            cmd_n["accepted"] += 1
+            line = unhx(r.split("\t")[1])
+            if line != verb + (U(x) if x is not None else b"") + b">\r\n" or (x is not None and not cverdict.get(x)):
+                env_bad.append("the command deserialized from %s is written as %r%s" % (j, line, "" if x is None or cverdict.get(x) else " although the address parser refuses that path"))
+        else:
+            raise RuntimeError("cmd.json: " + r)
+    ctx.cov["deserialized_commands"] = dict(cases=len(clines), **cmd_n)
+    # ... and the trait surface: a validated value type that can be made out of nothing (T: Default) is an envelope without recipients / an
+    # empty address that no constructor would have let through
+    surf = run_impl(["surface.default"])[0]
+    ctx.count()
+    for item in surf.split("\t"):
+        n, v = item.split("=", 1)
+        if v != "-":
+            env_bad.append("%s implements Default: %s::default() is %s, a value no constructor or deserializer accepts" % (n, n, unhx(v).decode("utf-8", "replace")[:120]))
+    ctx.cov["trait_surface"] = surf.replace("\t", " ")
     # accepted addresses on a sendmail command line: with and without a sender, recipients that begin with '-' must be read as operands by a
     # program that follows the POSIX utility conventions (never as options)
     sm_envs = [(fr, to) for fr in (None, b"s@example.com", b"-s@example.com") for to in ([b"-f@example.com"], [b"-bp@example.org", b"x@y.org"], [b"a@b.org", b"-oQ/tmp@x.org"], [b"--@example.com"], [b"-t@x.org", b"-i@x.org"])]
